@@ -241,6 +241,10 @@ class Verdict:
     def __init__(self, pid, tier, seed):
         self.pid, self.tier, self.seed = pid, tier, seed
         self.t0 = time.time()
+        try:
+            os.remove(os.path.join(VERIF, "evidence", "%s.json" % pid))   # never leave stale evidence behind
+        except OSError:
+            pass
         self.known = [k for k in load_known() if k.get("property") == pid]
         self.new = []          # confirmed violations not in the known-findings file
         self.known_hit = {}    # finding id -> count
